@@ -16,12 +16,14 @@ FILES = ['join/set_sim_join.py', 'join/jaccard_join_py.py', 'join/cosine_join_py
 
 def main():
     ck = Check('C01', repo.functions_encoded(FILES))
+    from checks import stages
+    ck.assumptions += stages.MODEL_ASSUMPTIONS + stages.CORE_ASSUMPTIONS
     quick = ck.tier == 'quick'
     P = ['C01', 'CRASH']
     # E1: the arithmetic half - kernel contract K for every double threshold
-    e1_stage.run_contract(ck, ck.tier)
+    e1_stage.run_contract(ck, ck.tier, max_obligations=150 if quick else None)
     # E2: structural half on the real set_sim_join, arbitrary token order, real kernel
-    thr = [0.3, 0.5, 0.75, 0.8, 1.0]
+    thr = [0.5, 0.8] if quick else [0.3, 0.5, 0.75, 0.8, 1.0]
     for measure in ('JACCARD', 'COSINE', 'DICE'):
         ck.e2('core-%s-1x2' % measure, h_core.make(dict(
             entry='set_sim_join', measure=measure, nl=1, nr=2, k=3, thresholds=thr,
